@@ -241,7 +241,7 @@ Proof.
     intros H. inversion H; subst. apply clause_toRPCErr_model.
   - destruct (Z.eq_dec t 2) as [->|N2].
     + destruct r as [|src [|ff [|api [|kind [|c [|? ?]]]]]]; try discriminate. cbn [run_op clause_op].
-      destruct (code_ok c && (1 <=? src) && (src <=? 8) && negb (src =? 5)) eqn:Ew; [|discriminate].
+      destruct (code_ok c && (1 <=? src) && (src <=? 10) && negb (src =? 5)) eqn:Ew; [|discriminate].
       destruct (src =? 6) eqn:E6.
       * intros H. inversion H; subst. destruct (c =? 0) eqn:E0; [reflexivity|].
         apply Z.eqb_neq in E0. cbn. rewrite Z.eqb_refl.
@@ -250,13 +250,18 @@ Proof.
         { intros H. inversion H; subst. destruct (z2b ff); reflexivity. }
         destruct (src =? 8) eqn:E8.
         { intros H. inversion H; subst. cbn. rewrite Z.eqb_refl. reflexivity. }
+        destruct (src =? 9) eqn:E9.
+        { intros H. inversion H; subst. reflexivity. }
+        destruct (src =? 10) eqn:E10.
+        { intros H. inversion H; subst. reflexivity. }
+        cbn [orb].
         intros H. inversion H; subst. clear H.
         destruct (is_nil_err (mk_err kind c)) eqn:En.
         { destruct (mk_err kind c); try discriminate En. reflexivity. }
         apply clause_rpc_model.
         { apply andb_true_iff in Ew as [Ew E5]. apply andb_true_iff in Ew as [Ew Ehi].
           apply andb_true_iff in Ew as [_ Elo]. apply Z.leb_le in Elo, Ehi.
-          apply negb_true_iff, Z.eqb_neq in E5. apply Z.eqb_neq in E6, E7, E8. unfold control_plane. lia. }
+          apply negb_true_iff, Z.eqb_neq in E5. apply Z.eqb_neq in E6, E7, E8, E9, E10. unfold control_plane. lia. }
         { apply mk_err_nse_free. }
         { intros Hm. rewrite Hm in En. discriminate. }
     + intros H. exfalso. destruct t as [|p|p]; try discriminate H.
